@@ -272,7 +272,8 @@ class Recorder(object):
             sr['Qw_int'] = Qw
             sr['res_int_c'] = dH * cp_c - Qgen - Qw
             sr['res_int_0'] = dH * cp_0 - Qgen - Qw
-            sr['scale'] = max(abs(dH * cp_c), abs(Qgen), qabs, 1e-6 * mt * cp_c)
+            hfloor = 0.0 if adiabatic else float(h) * reg.duct_perim * dz
+            sr['scale'] = max(abs(dH * cp_c), abs(Qgen), qabs, 1e-6 * mt * cp_c, hfloor)
             sr['dT_int'] = Tbar1 - Tbar0
             sr['byp'] = []
             sr['m_err'] = 0.0
